@@ -296,9 +296,11 @@ def check_case(acc, term, wrapper, record_sample=False, ast_hook=None):
         acc.unspecified += 1
         acc.outcome("unspecified")
         # weak oracle: no event more often than in the model is not derivable in
-        # general (an abrupt exit may skip or not skip a sibling), so: no internal error only
+        # general (an abrupt exit may skip or not skip a sibling), so: no internal error only.
+        # Not even termination can be demanded: in (f2 (boom) (while 1 ...)) the reference stops at
+        # (boom), but the order of the two arguments is unspecified and the loop may run first.
         if r["outcome"][0] in ("timeout", "fuel"):
-            bad("nontermination-in-unspecified-program", str(r["outcome"]))
+            acc.count("unspecified-order programs in which a diverging sibling ran first")
         return
     acc.outcome(m["outcome"][0] + ":" + (m["outcome"][1] if m["outcome"][0] == "exc" else "v"))
     if tuple(r["outcome"]) != tuple(m["outcome"]):
